@@ -234,9 +234,10 @@ class ResolutionContext:
 
 
 def _copy_values(values: Any) -> Any:
-    # Dictionaries and lists are rebuilt iteratively (variable values can be
-    # nested deeper than the recursion limit allows ``copy.deepcopy`` to go),
-    # anything else is deep copied.
+    # Dictionaries and lists (the containers coercion builds) are rebuilt
+    # iteratively (variable values can be nested deeper than the recursion limit
+    # allows ``copy.deepcopy`` to go); leaf values are handed over as they are:
+    # enum members map to their declared internal value, not to a copy of it.
     memo = {}  # type: Dict[int, Any]
     root = [None]  # type: List[Any]
     stack = [(values, root, 0)]  # type: List[Tuple[Any, Any, Any]]
@@ -252,7 +253,7 @@ def _copy_values(values: Any) -> Any:
                 target[key] = memo[id(source)] = copied = [None] * len(source)
                 stack.extend((v, copied, i) for i, v in enumerate(source))
         else:
-            target[key] = copy.deepcopy(source)
+            target[key] = source
     return root[0]
 
 
